@@ -1,8 +1,214 @@
-(** C06 — interim property file: the local-equivalence lemmas are being proved. *)
-From DL Require Import Lib.Bytes Lua.Syntax Lua.Sem Lua.RunCheck.
+(** C06 — Luau-lowering rules preserve program behaviour: LOCAL equivalences.
+    Only statements, closed by [exact], with their assumptions printed and pinned.
+
+    Each theorem relates one rewrite of Model/Lowering.v (the model of the rule's node-level
+    rewrite, tied to the Rust code on every run by vlib/lowering_gen.py) to the reference
+    interpreter Lua/Sem.v: same values, same store (cells, tables, closures, trace, oracle),
+    for every dialect, fuel, environment, varargs and store; the rewritten node may need more
+    fuel ([exists n']).  The lifting of these local equivalences to whole programs (the
+    rewritten node sits in an arbitrary context, closures capture rewritten bodies) is NOT
+    proved: whole-program equivalence is validated per run by the translation-validation
+    stream of vlib/c06.py (original and output executed in the Coq reference interpreter). *)
+From DL Require Import Lib.Bytes Lib.F64 Lua.Syntax Lua.Sem Model.Evaluator Lua.EvalSpec Lua.EvalSpec2
+  Model.Visit Model.Lowering Proof.LoweringSoundBasic Proof.LoweringSoundIf Proof.LoweringSoundBoxed
+  Proof.LoweringSoundArith Proof.LoweringSoundTypes Proof.LoweringSoundInterp.
 Open Scope N_scope.
 
-Theorem C06_outcome_eqb_refl_nil : outcome_eqb (OutOk [] []) (OutOk [] []) = true.
-Proof. reflexivity. Qed.
-Print Assumptions C06_outcome_eqb_refl_nil.
-Check C06_outcome_eqb_refl_nil : outcome_eqb (OutOk [] []) (OutOk [] []) = true.
+(** remove_if_expression, and/or form: the condition the rule checks ([evaluate r] is a known
+    truthy value) makes [c and r or e] equivalent to [if c then r else e].  [preserves_plain]:
+    evaluating the condition leaves the globals table without metatable and the string
+    metatable pristine (the precondition of C08's [evaluate_sound] for the store in which
+    [r] runs). *)
+Theorem C06_ifexpr_andor_sound : forall d n rho va c r els s vs s',
+  is_truthy (evaluate r) = Some true -> deep_safe d r = true -> ctor_pure d r = true ->
+  env_plain s -> preserves_plain d rho va c ->
+  eval d n rho va (EIf [EBranch c r] els) s = Ok vs s' ->
+  exists n', eval d n' rho va (EBinary BOr (EBinary BAnd c r) els) s = Ok vs s'.
+Proof. exact ifexpr_andor_sound. Qed.
+Print Assumptions C06_ifexpr_andor_sound.
+Check C06_ifexpr_andor_sound : forall d n rho va c r els s vs s',
+  is_truthy (evaluate r) = Some true -> deep_safe d r = true -> ctor_pure d r = true ->
+  env_plain s -> preserves_plain d rho va c ->
+  eval d n rho va (EIf [EBranch c r] els) s = Ok vs s' ->
+  exists n', eval d n' rho va (EBinary BOr (EBinary BAnd c r) els) s = Ok vs s'.
+
+(** ... and the rule's fold over any number of [elseif] branches (every result known truthy) *)
+Theorem C06_ifexpr_andor_fold_sound : forall d n rho va bs els s vs s',
+  bs <> nil -> Forall (branch_ok d rho va) bs -> env_plain s ->
+  eval d n rho va (EIf bs els) s = Ok vs s' ->
+  exists n', eval d n' rho va (rw_if_expression (EIf bs els)) s = Ok vs s'.
+Proof. exact ifexpr_andor_fold_sound. Qed.
+Print Assumptions C06_ifexpr_andor_fold_sound.
+Check C06_ifexpr_andor_fold_sound : forall d n rho va bs els s vs s',
+  bs <> nil -> Forall (branch_ok d rho va) bs -> env_plain s ->
+  eval d n rho va (EIf bs els) s = Ok vs s' ->
+  exists n', eval d n' rho va (rw_if_expression (EIf bs els)) s = Ok vs s'.
+
+(** boxed form [(c and {r} or {e})[1]], PARTIAL: for literal / local-variable results; same
+    values, final store = the original final store plus one table (the box) at the end.
+    Missing: results that allocate tables (their addresses shift by one: equality only up to
+    a renaming of table addresses, which needs the frame property of the whole interpreter). *)
+Theorem C06_ifexpr_boxed_partial : forall d n rho va c r els s vs s',
+  is_truthy (evaluate r) <> Some true -> atomic rho r = true -> atomic rho els = true ->
+  eval d n rho va (EIf [EBranch c r] els) s = Ok vs s' ->
+  exists n' t, eval d n' rho va (rw_if_expression (EIf [EBranch c r] els)) s = Ok vs (with_table s' t) /\
+               t_meta t = None.
+Proof. exact ifexpr_boxed_rule_partial. Qed.
+Print Assumptions C06_ifexpr_boxed_partial.
+Check C06_ifexpr_boxed_partial : forall d n rho va c r els s vs s',
+  is_truthy (evaluate r) <> Some true -> atomic rho r = true -> atomic rho els = true ->
+  eval d n rho va (EIf [EBranch c r] els) s = Ok vs s' ->
+  exists n' t, eval d n' rho va (rw_if_expression (EIf [EBranch c r] els)) s = Ok vs (with_table s' t) /\
+               t_meta t = None.
+
+(** remove_floor_division on operands that evaluate to numbers or numeric strings, [math] not
+    shadowed and bound to the library table.  Operands with metatables are outside the claim
+    ([__idiv] of the original vs [__div] then [math.floor] of the output differ). *)
+Theorem C06_floordiv_sound : forall d n rho va a b s vs s',
+  lookup rho (lnm "math") = None -> math_floor_bound s ->
+  numeric d rho va a -> numeric d rho va b ->
+  eval d n rho va (EBinary BIDiv a b) s = Ok vs s' ->
+  exists n', eval d n' rho va (rw_floor_division (EBinary BIDiv a b)) s = Ok vs s'.
+Proof. exact floordiv_sound. Qed.
+Print Assumptions C06_floordiv_sound.
+Check C06_floordiv_sound : forall d n rho va a b s vs s',
+  lookup rho (lnm "math") = None -> math_floor_bound s ->
+  numeric d rho va a -> numeric d rho va b ->
+  eval d n rho va (EBinary BIDiv a b) s = Ok vs s' ->
+  exists n', eval d n' rho va (rw_floor_division (EBinary BIDiv a b)) s = Ok vs s'.
+
+Theorem C06_initial_store_math_floor : forall orc, math_floor_bound (initial_store orc).
+Proof. exact initial_store_math_floor. Qed.
+Print Assumptions C06_initial_store_math_floor.
+Check C06_initial_store_math_floor : forall orc, math_floor_bound (initial_store orc).
+
+(** remove_compound_assignment on a local variable: [x op= e] => [x = x op e], provided
+    evaluating [e] does not change [x] (the output reads [x] before [e], the original after) *)
+Theorem C06_compound_local_sound : forall d n rho va op x a e s r s',
+  lookup rho x = Some a -> compound_op op = true -> leaves_cell d rho va e s a ->
+  exec_stmt d n rho va (SCompound op (EIdent x) e) s = Ok r s' ->
+  exists n', exec_stmt d n' rho va (rw_compound_assign (SCompound op (EIdent x) e)) s = Ok r s'.
+Proof. exact compound_local_sound. Qed.
+Print Assumptions C06_compound_local_sound.
+Check C06_compound_local_sound : forall d n rho va op x a e s r s',
+  lookup rho x = Some a -> compound_op op = true -> leaves_cell d rho va e s a ->
+  exec_stmt d n rho va (SCompound op (EIdent x) e) s = Ok r s' ->
+  exists n', exec_stmt d n' rho va (rw_compound_assign (SCompound op (EIdent x) e)) s = Ok r s'.
+
+(** ... on a global variable (not an [ext...] name, which reads as an external function when
+    nil): same proviso, and the globals table keeps no metatable *)
+Theorem C06_compound_global_sound : forall d n rho va op x e s r s',
+  lookup rho x = None -> is_ext_name x = false -> compound_op op = true -> leaves_global d rho va e s x ->
+  exec_stmt d n rho va (SCompound op (EIdent x) e) s = Ok r s' ->
+  exists n', exec_stmt d n' rho va (rw_compound_assign (SCompound op (EIdent x) e)) s = Ok r s'.
+Proof. exact compound_global_sound. Qed.
+Print Assumptions C06_compound_global_sound.
+Check C06_compound_global_sound : forall d n rho va op x e s r s',
+  lookup rho x = None -> is_ext_name x = false -> compound_op op = true -> leaves_global d rho va e s x ->
+  exec_stmt d n rho va (SCompound op (EIdent x) e) s = Ok r s' ->
+  exists n', exec_stmt d n' rho va (rw_compound_assign (SCompound op (EIdent x) e)) s = Ok r s'.
+
+(** ... and without that proviso the two differ in the reference semantics *)
+Theorem C06_compound_order_refuted :
+  exists rho st s r s' r2 s2,
+    exec_stmt Luau 20 rho nil st s = Ok r s' /\
+    exec_stmt Luau 20 rho nil (rw_compound_assign st) s = Ok r2 s2 /\ cells s' <> cells s2.
+Proof. exact compound_order_refuted. Qed.
+Print Assumptions C06_compound_order_refuted.
+Check C06_compound_order_refuted :
+  exists rho st s r s' r2 s2,
+    exec_stmt Luau 20 rho nil st s = Ok r s' /\
+    exec_stmt Luau 20 rho nil (rw_compound_assign st) s = Ok r2 s2 /\ cells s' <> cells s2.
+
+(** regression witness of the repaired interpolated-string-key defect: the key is evaluated once *)
+Theorem C06_compound_interp_key_once :
+  run_chunk Luau 100 nil interp_key_witness = OutOk nil (RNum 4622382067542392832 :: RNum 4607182418800017408 :: nil) /\
+  run_chunk Luau 100 nil (rule_compound_assign interp_key_witness) = OutOk nil (RNum 4622382067542392832 :: RNum 4607182418800017408 :: nil) /\
+  run_chunk L51 100 nil (rule_compound_assign interp_key_witness) = OutOk nil (RNum 4622382067542392832 :: RNum 4607182418800017408 :: nil).
+Proof. exact compound_interp_key_once. Qed.
+Print Assumptions C06_compound_interp_key_once.
+Check C06_compound_interp_key_once :
+  run_chunk Luau 100 nil interp_key_witness = OutOk nil (RNum 4622382067542392832 :: RNum 4607182418800017408 :: nil) /\
+  run_chunk Luau 100 nil (rule_compound_assign interp_key_witness) = OutOk nil (RNum 4622382067542392832 :: RNum 4607182418800017408 :: nil) /\
+  run_chunk L51 100 nil (rule_compound_assign interp_key_witness) = OutOk nil (RNum 4622382067542392832 :: RNum 4607182418800017408 :: nil).
+
+(** remove_interpolated_string, one value segment (both strategies): [`{v}`] => [tostring(v)],
+    [tostring] not shadowed and bound to the builtin.  (Several segments go through
+    [string.format]: no local theorem.) *)
+Theorem C06_interp_single_sound : forall st d n rho va v s vs s',
+  lookup rho (lnm "tostring") = None -> tostring_bound s ->
+  eval d n rho va (EInterp (ISExpr v :: nil)) s = Ok vs s' ->
+  exists n', eval d n' rho va (rw_interpolated_string st (EInterp (ISExpr v :: nil))) s = Ok vs s'.
+Proof. exact interp_single_sound. Qed.
+Print Assumptions C06_interp_single_sound.
+Check C06_interp_single_sound : forall st d n rho va v s vs s',
+  lookup rho (lnm "tostring") = None -> tostring_bound s ->
+  eval d n rho va (EInterp (ISExpr v :: nil)) s = Ok vs s' ->
+  exists n', eval d n' rho va (rw_interpolated_string st (EInterp (ISExpr v :: nil))) s = Ok vs s'.
+
+(** convert_luau_number: the literal's value is unchanged, bit for bit *)
+Theorem C06_luau_number_sound : forall n, number_value (rw_luau_number n) = number_value n.
+Proof. exact luau_number_sound. Qed.
+Print Assumptions C06_luau_number_sound.
+Check C06_luau_number_sound : forall n, number_value (rw_luau_number n) = number_value n.
+
+Theorem C06_luau_number_eval_sound : forall d n rho va x s,
+  eval d n rho va (rw_luau_number_expr (ENumber x)) s = eval d n rho va (ENumber x) s.
+Proof. exact luau_number_eval_sound. Qed.
+Print Assumptions C06_luau_number_eval_sound.
+Check C06_luau_number_eval_sound : forall d n rho va x s,
+  eval d n rho va (rw_luau_number_expr (ENumber x)) s = eval d n rho va (ENumber x) s.
+
+(** make_assignment_local *)
+Theorem C06_const_sound : forall d n rho va c vars vals s,
+  exec_stmt d n rho va (rw_const (SLocal c vars vals)) s = exec_stmt d n rho va (SLocal c vars vals) s.
+Proof. exact const_sound. Qed.
+Print Assumptions C06_const_sound.
+Check C06_const_sound : forall d n rho va c vars vals s,
+  exec_stmt d n rho va (rw_const (SLocal c vars vals)) s = exec_stmt d n rho va (SLocal c vars vals) s.
+
+(** remove_types: a cast is the first value of its operand *)
+Theorem C06_types_cast_first : forall d n rho va e t s,
+  eval d (S (S n)) rho va (ETypeCast e t) s = (vs <- eval d n rho va e ;; ret (first vs :: nil)) s.
+Proof. exact types_cast_first. Qed.
+Print Assumptions C06_types_cast_first.
+Check C06_types_cast_first : forall d n rho va e t s,
+  eval d (S (S n)) rho va (ETypeCast e t) s = (vs <- eval d n rho va e ;; ret (first vs :: nil)) s.
+
+(** ... so erasing nested casts / instantiations (parentheses around a callee that may return
+    several values) keeps values and store *)
+Theorem C06_strip_types_sound : forall e d n rho va s vs s',
+  eval d n rho va e s = Ok vs s' ->
+  exists n', (n' <= n)%nat /\ eval d n' rho va (strip_types e) s = Ok vs s'.
+Proof. exact strip_types_sound. Qed.
+Print Assumptions C06_strip_types_sound.
+Check C06_strip_types_sound : forall e d n rho va s vs s',
+  eval d n rho va e s = Ok vs s' ->
+  exists n', (n' <= n)%nat /\ eval d n' rho va (strip_types e) s = Ok vs s'.
+
+Theorem C06_types_prefix_sound : forall p d n rho va s v s',
+  eval1 d n rho va p s = Ok v s' ->
+  exists n', (n' <= n)%nat /\ eval1 d n' rho va (rw_types_prefix p) s = Ok v s'.
+Proof. exact types_prefix_sound. Qed.
+Print Assumptions C06_types_prefix_sound.
+Check C06_types_prefix_sound : forall p d n rho va s v s',
+  eval1 d n rho va p s = Ok v s' ->
+  exists n', (n' <= n)%nat /\ eval1 d n' rho va (rw_types_prefix p) s = Ok v s'.
+
+(** annotations on declared locals *)
+Theorem C06_types_local_sound : forall d n rho va c vars vals s,
+  exec_stmt d n rho va (rw_types_stmt (SLocal c vars vals)) s = exec_stmt d n rho va (SLocal c vars vals) s.
+Proof. exact types_local_sound. Qed.
+Print Assumptions C06_types_local_sound.
+Check C06_types_local_sound : forall d n rho va c vars vals s,
+  exec_stmt d n rho va (rw_types_stmt (SLocal c vars vals)) s = exec_stmt d n rho va (SLocal c vars vals) s.
+
+(** dropping the type declarations of a block *)
+Theorem C06_types_block_sound : forall d n rho va b s r s',
+  exec_block d n rho va b s = Ok r s' ->
+  exists n', exec_block d n' rho va (rw_types_block b) s = Ok r s'.
+Proof. exact types_block_sound. Qed.
+Print Assumptions C06_types_block_sound.
+Check C06_types_block_sound : forall d n rho va b s r s',
+  exec_block d n rho va b s = Ok r s' ->
+  exists n', exec_block d n' rho va (rw_types_block b) s = Ok r s'.
